@@ -180,8 +180,9 @@ func c04Order(c *hx.Ctx, s *p7Seed) { c04OrderBlob(c, s, s.Blob, "untouched seed
 func c04OrderBlob(c *hx.Ctx, s *p7Seed, blob []byte, class string) {
 	// (3, 4: the same issuer and serial under a key with a larger and with a smaller modulus than the
 	// signer's: a verification attempt against them must not leave anything behind either)
-	certs := []*x509.Certificate{s.Signer, s.Wrong, s.SameName, samePlateK(s.Signer, 4), samePlateK(s.Signer, 6)}
-	names := []string{"signer's certificate", "another certificate", "same issuer+serial, other key", "same issuer+serial, 4096-bit key", "same issuer+serial, 2047-bit key"}
+	others := samePlatesOtherSizes(s.Signer)
+	certs := []*x509.Certificate{s.Signer, s.Wrong, s.SameName, others[0], others[1]}
+	names := []string{"signer's certificate", "another certificate", "same issuer+serial, other key", "same issuer+serial, key of another size", "same issuer+serial, key of a third size"}
 	fresh := make([]bool, len(certs))
 	for i, ct := range certs {
 		if p, err := pkcs7.ParsePKCS7(blob); err == nil {
